@@ -125,11 +125,11 @@ KERNELS = [
       claims=[("SignedDuration::round with an arbitrary increment never panics; a non-positive increment is rejected",
                lambda a, o: And(o.is_some, Implies(a[2] <= 0, o.some.is_none)))],
       bounds={0: (-1000000, 1000000), 1: (-999999999, 999999999), 2: (-1000, 1000), 3: (0, 8)}),
-    K("c10::k_time_round_inc", pre=lambda a: And(ref_valid_time(a[0], a[1], a[2], a[3]), in_range(a[5], 0, 8), in_range(a[4], -5000, 5000)),
-      bounds={0: (0, 23), 1: (0, 59), 2: (0, 59), 3: (0, 999999999), 4: (-5000, 5000), 5: (0, 8)}, split=(4, 10), timeout=300,
-      claims=[("increments in -5000..5000 that do not evenly divide the next larger unit (or are not below it, or are not positive) are rejected",
+    K("c10::k_time_round_inc", pre=lambda a: And(ref_valid_time(a[0], a[1], a[2], a[3]), in_range(a[5], 0, 8), in_range(a[4], -100, 1100)),
+      bounds={0: (0, 23), 1: (0, 59), 2: (0, 59), 3: (0, 999999999), 4: (-100, 1100), 5: (0, 8)}, split=(4, 24), timeout=300,
+      claims=[("increments in -100..1100: accepted exactly when they are a proper divisor of the next larger unit (60 min/h, 24 h/day, 1000 ms/s)",
                lambda a, o: And(o.is_some,
-                                o.some[0].b == And(a[4] >= 1, a[4] < 60, 60 % a[4] == 0),
-                                o.some[1].b == And(a[4] >= 1, a[4] < 24, 24 % a[4] == 0),
-                                o.some[2].b == And(a[4] >= 1, a[4] < 1000, 1000 % a[4] == 0)))]),
+                                o.some[0].b == Or([a[4] == d for d in (1, 2, 3, 4, 5, 6, 10, 12, 15, 20, 30)]),
+                                o.some[1].b == Or([a[4] == d for d in (1, 2, 3, 4, 6, 8, 12)]),
+                                o.some[2].b == Or([a[4] == d for d in (1, 2, 4, 5, 8, 10, 20, 25, 40, 50, 100, 125, 200, 250, 500)])))]),
 ]
